@@ -173,6 +173,8 @@ def case_text(c, X, wd):
           "N=%d" % c["N"], "D=%d" % c["D"], "seed=%d" % c["seed"], "wd=%d" % wd]
     for key, v in sorted(c["p"].items()):
         kv.append("%s=%s" % (key, repr(v) if isinstance(v, float) else str(v)))
+    if 1 <= c["d"] < c["N"] and 3 <= c["k"] < c["N"]:
+        kv.append("nbdump=1")
     return "CASE " + " ".join(kv) + "\nX " + " ".join(repr(float(v)) for row in X for v in row) + "\n"
 
 
@@ -190,6 +192,7 @@ def run_chunk(ctx, exe, cases, wd, env):
     """Runs the cases in order in as few processes as possible.  Returns {id: result dict}.
     result: {"cls": "ok"|"exc"|"undoc"|"crash"|"hang"|"garbage", ...}"""
     out = {}
+    nbinfo = {}
     pending = list(cases)
     guard = 0
     while pending and guard < len(cases) + 5:
@@ -204,6 +207,17 @@ def run_chunk(ctx, exe, cases, wd, env):
                     cur = int(line[2:])
                 except ValueError:
                     cur = None
+                continue
+            if line.startswith("NB "):
+                f = line.split()
+                try:
+                    nid = int(f[1])
+                    if len(f) > 2 and f[2] == "BAD":
+                        nbinfo[nid] = {"bad": " ".join(f[3:])}
+                    else:
+                        nbinfo[nid] = {"lens": [int(x) for x in f[2:]]}
+                except (ValueError, IndexError):
+                    pass
                 continue
             if line.startswith("T "):
                 try:
@@ -252,6 +266,8 @@ def run_chunk(ctx, exe, cases, wd, env):
         pending = [c for c in pending if c["id"] not in done]
     for c in cases:
         out.setdefault(c["id"], {"cls": "garbage", "detail": "no result line"})
+        if c["id"] in nbinfo:
+            out[c["id"]]["nb"] = nbinfo[c["id"]]
     return out
 
 
@@ -265,3 +281,328 @@ def run_impl(ctx, exe, cases, wd=15, workers=8, threads="2"):
         for part in ex.map(lambda ch: run_chunk(ctx, exe, ch, wd, env) if ch else {}, chunks):
             res.update(part)
     return res
+
+
+# ----------------------------------------------------------------------------- the model side
+HEAD_VARIANT = (1, 0, 1, 1)          # f6 f7 f12 f21: /repo HEAD with F12+F21 (F7 is a known finding)
+F7_SIG = "F7-eig-segment-N=d+skip"
+SITE_FINDING = {105: "F7"}
+USES_NB = {"klle", "npe", "kltsa", "lltsa", "hlle", "la", "lpp", "isomap", "lisomap", "ms"}
+
+
+def scalars_ok(c):
+    """the method's scalar validate() predicates, with the same double expressions as the C++"""
+    m, p, N = c["m"], c["p"], c["N"]
+    if N <= 0:
+        return True
+    if m in ("lmds", "lisomap"):
+        lr = p.get("lr", 0.5)
+        return 3.0 / N <= lr <= 1.0
+    if m == "tsne":
+        return 0.0 <= p.get("perp", 30.0) <= (N - 1) / 3.0 and p.get("theta", 0.5) >= 0
+    if m == "ms":
+        return 0.0 <= p.get("sq", 0.99) < 1.0
+    if m in ("la", "lpp"):
+        return p.get("width", 1.0) > 0
+    if m == "dm":
+        return p.get("width", 1.0) > 0 and p.get("ts", 3) > 0
+    if m == "spe":
+        return p.get("spetol", 1e-9) > 0 and p.get("spen", 100) > 0
+    if m == "fa":
+        return p.get("fae", 1e-9) >= 0
+    return True
+
+
+def model_line(c, variant, lens=None):
+    p, N = c["p"], c["N"]
+    lr = p.get("lr", 0.5)
+    L = int(N * lr) if -1e6 < N * lr < 1e6 else 0
+    perp = p.get("perp", 30.0)
+    K = int(3 * perp) if -1e6 < perp < 1e6 else 0
+    uses = c["m"] in USES_NB or (c["m"] == "spe" and not p.get("speg", 1))
+    if not uses:
+        nbmode = "E"
+    elif lens is not None:
+        nbmode = ("U %d" % lens[0]) if (lens and len(set(lens)) == 1 and len(lens) == N) else \
+                 ("L " + " ".join(str(x) for x in (lens + [0] * N)[:max(N, 0)]))
+    else:
+        nbmode = "U %d" % max(min(c["k"], N - 1), 0)
+    return "%d %d %d %d %d %s %d %d %d %d %d %d %d %d %d %d %d %s" % (
+        (c["id"],) + tuple(variant) + (c["m"], N, c["D"], c["d"], c["k"], 1 if c["em"] == "dense" else 0,
+                                        1 if scalars_ok(c) else 0, L, 1 if p.get("theta", 0.5) == 0 else 0, K,
+                                        1 if p.get("speg", 1) else 0, p.get("spen", 100), nbmode))
+
+
+def run_model(ctx, mexe, cases, variant, lens_by_id=None):
+    text = "\n".join(model_line(c, variant, (lens_by_id or {}).get(c["id"])) for c in cases) + "\n"
+    r = ctx.run(mexe, text, timeout=600)
+    out = {}
+    for line in r.out.splitlines():
+        f = line.split()
+        if len(f) < 2:
+            continue
+        try:
+            cid = int(f[0])
+        except ValueError:
+            continue
+        f7 = f[-1] == "F7"
+        if f[1] == "SHAPE":
+            out[cid] = {"cls": "shape", "rows": int(f[2]), "cols": int(f[3]), "f7": f7}
+        elif f[1] == "EXC":
+            out[cid] = {"cls": "exc", "exc": f[2], "f7": f7}
+        elif f[1] == "CRASH":
+            out[cid] = {"cls": "crash", "site": int(f[2]), "idx": int(f[3]), "size": int(f[4]), "f7": f7}
+        elif f[1] == "HANG":
+            out[cid] = {"cls": "hang", "site": int(f[2]), "f7": f7}
+    if r.rc != 0 or len(out) != len(cases):
+        raise vlib.BuildError("C01 model driver failed: rc=%s %s" % (r.rc, (r.err or r.out)[-400:]))
+    return out
+
+
+# ----------------------------------------------------------------------------- verdicts per case
+NUMERIC_EXC = {"eigendecomposition_error", "not_enough_memory_error"}
+FINITE_METHODS = {"pca", "ra", "passthru", "mds", "kpca"}
+
+
+def pub(c):
+    """the replayable form of a case"""
+    return {k: c[k] for k in ("m", "nm", "em", "d", "k", "N", "D", "kind", "seed", "p") if k in c} | \
+           ({"X": c["X"]} if "X" in c else {})
+
+
+def judge(ctx, c, real, model, build, stats):
+    """spec on the implementation's own outcome + correspondence with the model. real = result dict of
+    run_chunk, model = dict of run_model."""
+    cls = real["cls"]
+    N, d, D = c["N"], c["d"], c["D"]
+    where = "%s build" % build
+    if cls in ("crash", "hang", "undoc", "garbage"):
+        what = {"crash": "terminates the process (%s)" % str(real.get("detail", ""))[:700],
+                "hang": "does not return within the watchdog (%s)" % real.get("detail", ""),
+                "undoc": "throws an undocumented exception: %s" % real.get("detail", ""),
+                "garbage": "produces no/garbled result line: %s" % real.get("detail", "")}[cls]
+        sig = None
+        if cls == "crash" and model["cls"] == "crash" and SITE_FINDING.get(model["site"]) == "F7":
+            sig = F7_SIG
+            stats["f7_seen"] += 1
+        ctx.violation(pub(c), "tapkee::embed %s [%s; model: %s]" % (what, where, model), signature=sig)
+        return
+    if cls == "ok":
+        want_cols = D if c["m"] == "passthru" else d
+        if real["rows"] != N or real["cols"] != want_cols or not real["rowtie"]:
+            ctx.violation(pub(c), "returned matrix is %dx%d (rowtie=%d), contract says %dx%d [%s]" % (
+                real["rows"], real["cols"], real["rowtie"], N, want_cols, where))
+            return
+        if real["nonfinite"]:
+            stats["nonfinite_cases"] += 1
+            interior = (c["kind"] == "generic" and c["m"] in FINITE_METHODS and d <= min(D, N - 1)
+                        and N >= 4)
+            if interior:
+                ctx.violation(pub(c), "%d non-finite entries on generic data with target_dimension within the "
+                                      "rank of the problem [%s]" % (real["nonfinite"], where))
+                return
+        if model["cls"] == "shape":
+            return
+        if model["cls"] == "crash" and SITE_FINDING.get(model["site"]) == "F7":
+            stats["f7_silent"] += 1          # the read one past the end went unnoticed by this build
+            return
+        ctx.mismatch(pub(c), "implementation returns %dx%d, model says %s [%s]" % (
+            real["rows"], real["cols"], model, where))
+        return
+    # a documented exception
+    e = real["exc"]
+    if model["cls"] == "exc":
+        if model["exc"] != e:
+            ctx.mismatch(pub(c), "implementation throws %s, model says %s [%s]" % (e, model["exc"], where))
+        return
+    if model["cls"] == "shape" and e in NUMERIC_EXC and c["m"] in EIGEN:
+        stats["numeric_exc"] += 1
+        return
+    if model["cls"] == "crash" and SITE_FINDING.get(model["site"]) == "F7" and e in NUMERIC_EXC:
+        stats["numeric_exc"] += 1      # the solver failed (info() != Success) before the slice was taken
+        return
+    ctx.mismatch(pub(c), "implementation throws %s, model says %s [%s]" % (e, model, where))
+
+
+def evaluate(ctx, exes, mexe, cases, stats, wd=10, workers=5):
+    """exes = {"san": path, "dbg": path}"""
+    results = {}
+    with concurrent.futures.ThreadPoolExecutor(max_workers=2) as ex:
+        futs = {b: ex.submit(run_impl, ctx, exe, cases, wd, workers) for b, exe in exes.items()}
+        for b, f in futs.items():
+            results[b] = f.result()
+    lens = {}
+    for b in exes:
+        for cid, r in results[b].items():
+            nb = r.get("nb")
+            if nb and "lens" in nb and cid not in lens:
+                lens[cid] = nb["lens"]
+            if nb and "bad" in nb:
+                c = next(x for x in cases if x["id"] == cid)
+                ctx.violation(pub(c), "find_neighbors returned an entry that is not a sample index: " + nb["bad"])
+    model = run_model(ctx, mexe, cases, HEAD_VARIANT, lens)
+    for c in cases:
+        for b in exes:
+            judge(ctx, c, results[b][c["id"]], model[c["id"]], b, stats)
+        stats["model_" + model[c["id"]]["cls"]] = stats.get("model_" + model[c["id"]]["cls"], 0) + 1
+        for b in exes:
+            key = "real_%s_%s" % (b, results[b][c["id"]]["cls"])
+            stats[key] = stats.get(key, 0) + 1
+    return model, results
+
+
+# ----------------------------------------------------------------------------- case streams
+def boundary_cases(rng, start_id, per_method):
+    """per method: target_dimension / num_neighbors on both sides of every rank boundary the index
+    obligations of Shapes_Proof_Main.v split on"""
+    out = []
+    cid = start_id
+    for m in METHODS:
+        combos = []
+        for (N, D, k) in [(8, 3, 3), (20, 2, 5), (5, 3, 3), (9, 4, 4)]:
+            lr = 0.5
+            L = int(N * lr)
+            for d in sorted({1, 2, 3, D, D + 1, k, k + 1, L, L + 1, N - 2, N - 1, N}):
+                if d >= 1:
+                    combos.append((N, D, k, d, lr))
+        rng.shuffle(combos)
+        for (N, D, k, d, lr) in combos[:per_method]:
+            heavy = m in ("tsne", "ms", "spe", "fa")
+            over = {}
+            if m in ("lmds", "lisomap"):
+                over["lr"] = lr
+            if m == "tsne":
+                over["perp"] = min(2.0, (N - 1) / 3.0)
+                over["theta"] = rng.choice([0.0, 0.5])
+            c = make_case(rng, cid, m=m, N=N, D=D, d=d, k=k, boundary=False,
+                          kind=rng.choice(["generic", "generic", "lattice", "duplicated"]),
+                          em=rng.choice(["dense", "dense", "randomized"]) if m in EIGEN else "dense", **over)
+            c["p"]["cc"] = rng.choice([0, 1])
+            out.append(c)
+            cid += 1
+    return out
+
+
+def random_cases(rng, start_id, n, max_N):
+    out = []
+    for i in range(n):
+        c = make_case(rng, start_id + i, N=rng.choice([x for x in [1, 2, 3, 4, 5, 8, 20, 50] if x <= max_N]))
+        if c["m"] in ("tsne", "ms") and c["N"] > 20:
+            c["N"] = 20
+            c["d"] = min(c["d"], 19)
+            c["k"] = min(c["k"], 19)
+            if c["m"] == "tsne":
+                c["p"]["perp"] = min(c["p"]["perp"], 19 / 3.0)
+        out.append(c)
+    return out
+
+
+def corpus_cases(ctx, start_id):
+    out = []
+    for name, obj in ctx.corpus():
+        c = dict(obj.get("case", obj))
+        c.setdefault("p", {})
+        c.setdefault("seed", 1)
+        c.setdefault("kind", "generic")
+        c.setdefault("nm", "brute")
+        c.setdefault("em", "dense")
+        c["id"] = start_id + len(out)
+        c["corpus"] = name
+        out.append(c)
+    return out
+
+
+def search_phase(ctx, exes, mexe, rng, stats, budget):
+    """boundary-aimed sweep at a larger budget, every method, dense solver, connectivity check off"""
+    cases = boundary_cases(rng, 500000, budget)
+    for c in cases:
+        if c["m"] in EIGEN:
+            c["em"] = "dense"
+        c["p"]["cc"] = 0
+        c["kind"] = "generic"
+    evaluate(ctx, exes, mexe, cases, stats)
+    return len(cases)
+
+
+def key_of(c):
+    return json.dumps([c["m"], c["nm"], c["em"], c["N"], c["D"], c["d"], c["k"], c["kind"],
+                       sorted(c["p"].items())], sort_keys=True, default=str)
+
+
+def build_all(ctx):
+    with concurrent.futures.ThreadPoolExecutor(max_workers=3) as ex:
+        f_san = ex.submit(ctx.cpp, "harness/c01.cpp", "c01_san", (), True, False, ["-O0", "-g0"])
+        f_dbg = ex.submit(ctx.cpp, "harness/c01.cpp", "c01_dbg", (), False, True, ["-O0"])
+        f_mod = ex.submit(ctx.extract)
+        errs = []
+        res = []
+        for f in (f_san, f_dbg, f_mod):
+            try:
+                res.append(f.result())
+            except vlib.BuildError as e:
+                errs.append(e)
+                res.append(None)
+        if errs:
+            raise errs[0]
+    return {"san": res[0], "dbg": res[1]}, res[2]
+
+
+def run(ctx):
+    rng = ctx.rng
+    coq = ctx.coq()
+    exes, mexe = build_all(ctx)
+    quick = ctx.quick
+    stats = {"f7_seen": 0, "f7_silent": 0, "nonfinite_cases": 0, "numeric_exc": 0}
+    cases = corpus_cases(ctx, 1)
+    ncorpus = len(cases)
+    cases += boundary_cases(rng, 1000, 7 if quick else 40)
+    nboundary = len(cases) - ncorpus
+    cases += random_cases(rng, 100000, 160 if quick else 2500, 50)
+    nrandom = len(cases) - ncorpus - nboundary
+    model, results = evaluate(ctx, exes, mexe, cases, stats)
+    n = 2 * len(cases)
+    if ctx.is_unshown() and not ctx.has_violation():
+        n += 2 * search_phase(ctx, exes, mexe, rng, stats, 12 if quick else 40)
+    distinct = {key_of(c) for c in cases if model[c["id"]]["cls"] in ("shape", "crash")}
+    hist = {"generators": {"corpus": ncorpus, "boundary": nboundary, "random": nrandom},
+            "method": {}, "N": {}, "kind": {}, "neighbors_method": {}, "eigen_method": {}, "stats": stats}
+    for c in cases:
+        for hk, ck in (("method", "m"), ("N", "N"), ("kind", "kind"), ("neighbors_method", "nm"),
+                       ("eigen_method", "em")):
+            hist[hk][str(c[ck])] = hist[hk].get(str(c[ck]), 0) + 1
+    ctx.finish(
+        evaluations=n, distinct_nontrivial=len(distinct),
+        rule="requests through tapkee::embed (public API): corpus witnesses, a boundary stream (per method, "
+             "target_dimension on both sides of D, num_neighbors, #landmarks, N-2, N-1, N) and a random stream "
+             "(20 methods x 3 neighbour methods x 2 solvers x N in {1..50} x 7 data kinds, keywords mostly valid, "
+             "sometimes on/beyond their bound); each request runs in the ASan+UBSan+_GLIBCXX_ASSERTIONS build and "
+             "in the Eigen-assertions build (evaluations = 2 per request); non-trivial = the model lets the request "
+             "proceed to embed(); distinct by (method, back-ends, N, D, d, k, kind, keywords)",
+        samples=[pub(c) for c in cases[:3] + cases[ncorpus:ncorpus + 3] + cases[-2:]],
+        histogram=hist, trusted_base=TRUSTED,
+        assumptions=["samples are finite doubles", "neighbour lists are as C02/C03 state (equal length k_eff, "
+                     "entries are sample indices): the harness dumps the real lists' lengths and feeds them to the model",
+                     "scalar keyword predicates are evaluated in Python with the C++'s double expressions (C14)",
+                     "F7 (known finding) is open: requests in the F7 zone are expected to crash and reported as KNOWN-FINDING"],
+        extra={"builds": ["sanitize(-O0 -g0)", "eigen_debug(-O0, no sanitizer)"], "watchdog_s": 10})
+
+
+def replay(ctx, case):
+    exes, mexe = build_all(ctx)
+    c = dict(case)
+    c.setdefault("p", {})
+    c.setdefault("seed", 1)
+    c.setdefault("kind", "generic")
+    c.setdefault("nm", "brute")
+    c.setdefault("em", "dense")
+    c["id"] = 1
+    stats = {"f7_seen": 0, "f7_silent": 0, "nonfinite_cases": 0, "numeric_exc": 0}
+    model, results = evaluate(ctx, exes, mexe, [c], stats, workers=1)
+    print("model (head variant): %s" % model[1])
+    for b in exes:
+        print("%s build: %s" % (b, {k: (str(v)[:600]) for k, v in results[b][1].items()}))
+    if ctx.has_violation() or ctx.is_unshown():
+        print("replay: property C01 FAILS on this request")
+        return 1
+    print("replay: property C01 holds on this request" + (" (known finding F7)" if ctx._known else ""))
+    return 0
